@@ -279,7 +279,8 @@ where
                         TestRng::from_seed(RngAlgorithm::ChaCha, &shard_seed(seed, &name, shard));
                     let mut runner = TestRunner::new_with_rng(config, rng);
                     let failed = std::cell::Cell::new(false);
-                    let strategy = vec(any::<u8>(), 0..max_len);
+                    // tapes shorter than an eighth of the maximum mostly decode to degenerate cases
+                    let strategy = vec(any::<u8>(), (max_len / 8)..max_len);
                     let result = runner.run(&strategy, |tape| {
                         if !failed.get() && stop.load(Ordering::Relaxed) {
                             // another shard already has a failure: do not start new cases
